@@ -556,102 +556,7 @@ func c13judgeWire(c *Ctx, ns *NodeSim) {
 		}
 		return items[i].ann != nil && items[j].ann == nil
 	})
-	startH := 0
-	if ns.Start != nil {
-		startH = ns.Start.Height
-	}
-	announced := map[*WBlock]bool{}   // ever announced to handlers so far
-	everRequested := map[*WBlock]bool{}
-	var curConn *PeerConn
-	var win []*WBlock                 // requested on curConn, neither announced since nor abandoned
-	var prev *WBlock                  // previous request on curConn
-	reqOnConn := map[*WBlock]int{}    // requests per block on curConn since the last branch switch away from it
-	maxWin := 0
-	for _, it := range items {
-		if it.ann != nil {
-			for _, b := range it.ann {
-				if b.Height >= startH && b.Txs != nil && !everRequested[b] {
-					key := "never-requested"
-					if ns.Trusted.UnsolicitedSent[b.Hash] {
-						key = "unsolicited-body-accepted"
-					}
-					c.Violate("unrequested-processed", key, "block %s was announced to handlers at t=%v but the node had not written a getdata for it", b, it.at)
-				}
-				announced[b] = true
-				for i, w := range win {
-					if w == b {
-						win = append(win[:i:i], win[i+1:]...)
-						break
-					}
-				}
-			}
-			continue
-		}
-		r := it.req
-		b := r.b
-		if r.conn != curConn {
-			curConn, win, prev = r.conn, nil, nil
-			reqOnConn = map[*WBlock]int{}
-		}
-		c.Probe("block_request_seen")
-		held := func(x *WBlock) bool { return x == nil || announced[x] || x.Height < startH || x == ns.Start }
-		switch {
-		case prev == nil:
-			if !held(b.Parent) {
-				c.Violate("order", "first-request-of-connection", "first block request on %s is %s whose parent %s the node does not hold (never announced to handlers, not below the start block)", r.conn, b, b.Parent)
-			}
-		case b.Parent == prev:
-			// next in chain order
-		case IsAncestor(prev, b):
-			c.Violate("order", "skipped", "block request for %s follows the request for %s on %s: %d block(s) in between were not requested first", b, prev, r.conn, b.Height-prev.Height-1)
-		case b == prev || IsAncestor(b, prev):
-			// going back on the same branch: judged as a repeat below
-		default:
-			// another branch: requests beyond the fork point are discarded, the new branch is
-			// requested from the first block after the fork
-			c.Probe("branch_switch_seen")
-			f := ForkPoint(b, prev)
-			if b.Parent != f && !held(b.Parent) {
-				c.Violate("order", "new-branch-not-from-fork", "after a fork at %s (previous request %s) the first request on the new branch is %s, whose parent %s is neither the fork point nor held", f, prev, b, b.Parent)
-			}
-			keep := win[:0:0]
-			for _, w := range win {
-				if IsAncestor(w, b) {
-					keep = append(keep, w)
-				}
-			}
-			win = keep
-			for x := range reqOnConn {
-				if !IsAncestor(x, b) {
-					delete(reqOnConn, x) // its branch was abandoned: it may be requested again
-				}
-			}
-		}
-		reqOnConn[b]++
-		if reqOnConn[b] > 1 {
-			c.Violate("repeat", "same-connection", "block %s was requested %d times on %s without its branch having been abandoned in between", b, reqOnConn[b], r.conn)
-		}
-		everRequested[b] = true
-		already := false
-		for _, w := range win {
-			if w == b {
-				already = true
-			}
-		}
-		if !already && !announced[b] {
-			win = append(win, b)
-		}
-		if len(win) > maxWin {
-			maxWin = len(win)
-		}
-		// ten in the window plus the one block that has left the window and is being processed
-		if len(win) > 11 {
-			c.Violate("window", "more-than-ten-outstanding", "%d blocks requested on %s and not yet announced to handlers at t=%v (latest %s); the window is ten", len(win), r.conn, r.at, b)
-			win = win[1:]
-		}
-		prev = b
-	}
-	// --- forks: requests beyond the fork point are discarded, the new branch is requested --------
+	// headers messages as the node read them (time = last byte consumed)
 	type hdrEv struct {
 		at     time.Duration // when the node had read the whole message
 		conn   *PeerConn
@@ -680,6 +585,120 @@ func c13judgeWire(c *Ctx, ns *NodeSim) {
 		}
 	}
 	sort.SliceStable(hevs, func(i, j int) bool { return hevs[i].at < hevs[j].at })
+	startH := 0
+	if ns.Start != nil {
+		startH = ns.Start.Height
+	}
+	announced := map[*WBlock]bool{}   // ever announced to handlers so far
+	everRequested := map[*WBlock]bool{}
+	var curConn *PeerConn
+	var win []*WBlock                 // requested on curConn, neither announced since nor abandoned
+	var prev *WBlock                  // previous request on curConn
+	reqOnConn := map[*WBlock]int{}    // requests per block on curConn since the last branch switch away from it
+	lastReqAt := map[*WBlock]time.Duration{}
+	maxWin := 0
+	for _, it := range items {
+		if it.ann != nil {
+			for _, b := range it.ann {
+				if b.Height >= startH && b.Txs != nil && !everRequested[b] {
+					key := "never-requested"
+					if ns.Trusted.UnsolicitedSent[b.Hash] {
+						key = "unsolicited-body-accepted"
+					}
+					c.Violate("unrequested-processed", key, "block %s was announced to handlers at t=%v but the node had not written a getdata for it", b, it.at)
+				}
+				announced[b] = true
+				for i, w := range win {
+					if w == b {
+						win = append(win[:i:i], win[i+1:]...)
+						break
+					}
+				}
+			}
+			continue
+		}
+		r := it.req
+		b := r.b
+		if r.conn != curConn {
+			curConn, win, prev = r.conn, nil, nil
+			reqOnConn = map[*WBlock]int{}
+			lastReqAt = map[*WBlock]time.Duration{}
+		}
+		c.Probe("block_request_seen")
+		held := func(x *WBlock) bool { return x == nil || announced[x] || x.Height < startH || x == ns.Start }
+		switch {
+		case prev == nil:
+			if !held(b.Parent) {
+				c.Violate("order", "first-request-of-connection", "first block request on %s is %s whose parent %s the node does not hold (never announced to handlers, not below the start block)", r.conn, b, b.Parent)
+			}
+		case b.Parent == prev:
+			// next in chain order
+		case b == prev || IsAncestor(b, prev):
+			// going back on the same branch: judged as a repeat below
+		case IsAncestor(prev, b):
+			c.Violate("order", "skipped", "block request for %s follows the request for %s on %s: %d block(s) in between were not requested first", b, prev, r.conn, b.Height-prev.Height-1)
+		default:
+			// another branch: requests beyond the fork point are discarded, the new branch is
+			// requested from the first block after the fork
+			c.Probe("branch_switch_seen")
+			f := ForkPoint(b, prev)
+			if b.Parent != f && !held(b.Parent) {
+				c.Violate("order", "new-branch-not-from-fork", "after a fork at %s (previous request %s) the first request on the new branch is %s, whose parent %s is neither the fork point nor held", f, prev, b, b.Parent)
+			}
+			keep := win[:0:0]
+			for _, w := range win {
+				if IsAncestor(w, b) {
+					keep = append(keep, w)
+				}
+			}
+			win = keep
+			for x := range reqOnConn {
+				if !IsAncestor(x, b) {
+					delete(reqOnConn, x) // its branch was abandoned: it may be requested again
+				}
+			}
+		}
+		if at, again := lastReqAt[b]; again && reqOnConn[b] > 0 {
+			// abandoned in between without any request on the other branch having been written:
+			// the node read headers that put the peer's chain on a branch without this block
+			for _, he := range hevs {
+				if he.conn != r.conn || he.at < at || he.at > r.at {
+					continue
+				}
+				l := he.blocks[len(he.blocks)-1]
+				if !IsAncestor(b, l) && !IsAncestor(l, b) {
+					reqOnConn[b] = 0
+					c.Probe("rerequest_after_abandoned_branch")
+					break
+				}
+			}
+		}
+		lastReqAt[b] = r.at
+		reqOnConn[b]++
+		if reqOnConn[b] > 1 {
+			c.Violate("repeat", "same-connection", "block %s was requested %d times on %s without its branch having been abandoned in between", b, reqOnConn[b], r.conn)
+		}
+		everRequested[b] = true
+		already := false
+		for _, w := range win {
+			if w == b {
+				already = true
+			}
+		}
+		if !already && !announced[b] {
+			win = append(win, b)
+		}
+		if len(win) > maxWin {
+			maxWin = len(win)
+		}
+		// ten in the window plus the one block that has left the window and is being processed
+		if len(win) > 11 {
+			c.Violate("window", "more-than-ten-outstanding", "%d blocks requested on %s and not yet announced to handlers at t=%v (latest %s); the window is ten", len(win), r.conn, r.at, b)
+			win = win[1:]
+		}
+		prev = b
+	}
+	// --- forks: requests beyond the fork point are discarded, the new branch is requested --------
 	const grace = time.Second
 	for _, it := range items {
 		if it.req == nil {
